@@ -103,14 +103,13 @@ def fb_src(owner_site):
 
 def the_layout(v):
     c = R.comp
-    comps = [c("c0", fb=False, extra_src=fb_src("c0")), c("c1", fb=False, extra_src=fb_src("c1"))]
-    lay = R.layout(f"fb{v}", comps if v == 0 else comps[::-1], auto=(v == 0), teleop_in_auto=False, p_us=20000, robot_fb=False, robot_extra=fb_src("robot"))
+    base_src = "    @feedback\n    def get_over(self) -> int:\n        return _fbval(self.SITE + '.fb.get_over', self)\n    @feedback\n    def get_inherited(self) -> int:\n        return 77\n"
+    cb = c("cb", fb=False, extra_src=base_src)  # the base class is a component itself, declared before its subclass
+    comps = [c("c0", fb=False, extra_src=fb_src("c0")), c("c1", fb=False, inherit="cb", extra_src=fb_src("c1"))]
+    lay = R.layout(f"fb{v}", ([cb] + comps) if v == 0 else ([cb] + comps[::-1]), auto=(v == 0), teleop_in_auto=False, p_us=20000, robot_fb=False, robot_extra=fb_src("robot"))
     lay["prelude"] = (
         "from collections.abc import Sequence\nfrom wpimath.geometry import Rotation2d\n"
-        "class FBBase:\n    @feedback\n    def get_over(self) -> int:\n        return _fbval('base.fb.get_over', self)\n"
-        "    @feedback\n    def get_inherited(self) -> int:\n        return 77\n"
     )
-    lay["c1_parent"] = "FBBase"
     return lay
 
 
@@ -132,7 +131,7 @@ OWNERS = [("c0", "/components/c0/"), ("c1", "/components/c1/"), ("robot", "/robo
 def fbvalue(site, n):
     owner, _fb, name = site.split(".", 2)
     kind = next(k for nm, _k, _a, k in FEEDBACKS if nm == name)
-    return value_for(kind, n, salt={"c0": 0, "c1": 100, "robot": 1000}[owner], site=site)
+    return value_for(kind, n, salt={"c0": 0, "c1": 100, "robot": 1000}.get(owner, 500), site=site)
 
 
 def observe(robot, k, inst):
